@@ -48,7 +48,10 @@ func drawC05(rt *rapid.T) *Case {
 	}
 	n := 2 + gen.Uniform(rt, "nops", maxOps-1)
 	for i := 0; i < n; i++ {
-		switch k := gen.Uniform(rt, "op", 46); {
+		switch k := gen.Uniform(rt, "op", 47); {
+		case k == 46:
+			// the caller registers other functions under the same names on the Config it parsed with
+			c.Ops = append(c.Ops, Op{Kind: "rebind"})
 		case k >= 44:
 			c.Ops = append(c.Ops, Op{Kind: "gc"})
 		case k >= 43:
@@ -99,6 +102,7 @@ func checkC05(c *Case, st *Stats) string {
 	Journal(c.Check, c.Path, "", flagString(c))
 	rec := &Recorder{}
 	mainCfg := BuildConfig(rec, true, false) // the caller's Config object: used for Parse and for every fresh Retrieve below
+	freshCfg := mainCfg                      // what a fresh Retrieve is given (the same Config until a "rebind" operation)
 	f, err := jsonpath.Parse(c.Path, mainCfg)
 	if err != nil {
 		return fmt.Sprintf("generated path was rejected by Parse: %v", err)
@@ -152,7 +156,7 @@ func checkC05(c *Case, st *Stats) string {
 			st.Eval(1)
 			calls++
 			logged, errs := len(rec.Calls), rec.Errs
-			fresh, ferr := jsonpath.Retrieve(c.Path, docs[i], mainCfg)
+			fresh, ferr := jsonpath.Retrieve(c.Path, docs[i], freshCfg)
 			rec.Calls, rec.Errs = rec.Calls[:logged], errs
 			if !sameOutcome(got, gerr, fresh, ferr) {
 				return fmt.Sprintf("operation %d: call on document %d (%s) returned (%s, %v) but a fresh Retrieve returns (%s, %v); history so far: %s", step, i, cur[i].JSON(), JSONString(got), gerr, JSONString(fresh), ferr, hist)
@@ -228,6 +232,19 @@ func checkC05(c *Case, st *Stats) string {
 					r.scribbled = true
 				}
 			}
+		case "rebind":
+			// Parse bound the names to the functions the Config held then; what the caller registers
+			// under those names afterwards, on that very Config object, is for later Parse calls only.
+			// The fresh Retrieve a call is compared with gets an equal Config of its own from here on.
+			freshCfg = BuildConfig(rec, true, false)
+			for _, name := range gen.FilterNames {
+				mainCfg.SetFilterFunction(name, func(v interface{}) (interface{}, error) { return "REGISTERED-AFTER-PARSE", nil })
+			}
+			for _, name := range gen.AggNames {
+				mainCfg.SetAggregateFunction(name, func(vs []interface{}) (interface{}, error) { return "REGISTERED-AFTER-PARSE", nil })
+			}
+			st.Class("functions-re-registered-on-the-config-after-parse")
+			hist += "re-register-functions "
 		case "twoconfigs":
 			var other jsonpath.Config
 			for _, name := range gen.FilterNames {
